@@ -601,3 +601,17 @@ def container_origin(fn, n):
         if wk and not (wk.startswith("call(") and wk[5:-1] in REMOVAL_CALLS + NONMUTATING_NONCONST):
             return n
     return skip_copies(var["init"])
+
+
+def statics_from_params(fn):
+    """[(decl stmt, var)] function-local statics whose initialiser reads a parameter of the enclosing function: the value is
+    computed once, from the first caller's argument, and handed to every later caller whatever it passes"""
+    pd = {p["decl"] for p in fn.params}
+    out = []
+    if not pd or fn.body is None:
+        return out
+    for d in fn.find(lambda n: n.get("k") == "decl"):
+        for v in d.get("vars", []):
+            if v.get("static") and isinstance(v.get("init"), dict) and any(x.get("k") == "ref" and x.get("decl") in pd for x in walk(v["init"])):
+                out.append((d, v))
+    return out
